@@ -55,6 +55,15 @@ CONTRACTS = [
                                        ' len(self.errors) > len(old(self.errors)))'},
          reach={'configured': "old(pobj.value) is not None and has_dyn(self, 'write_' + pname) and len(self.errors) == len(old(self.errors))"},
          raises={'cls': 'issubclass(exc, Exception)'}),
+    # bounded stand-in only: a whole module configuration is applied (values checked against the datatype WITH the configured
+    # overrides) or rejected as a whole
+    dict(key='Module.__init__', vc=False, file='frappy/modulebase.py', func='Module.__init__', serves=['C10'], self_type='Module',
+         requires=[],
+         ensures={'valid_config': 'not expect_reject',
+                  'start_values': 'all(getattr(self, p) == v for p, v in expect_values.items())',
+                  'overrides': 'all(getattr(self.parameters[p].datatype, prop) == v for (p, prop), v in expect_props.items())'},
+         # (an unknown property name surfaces as ProgrammingError; the node collects either kind and refuses to start)
+         raises={'cls': 'issubclass(exc, ConfigError) or issubclass(exc, ProgrammingError)', 'invalid_config': 'expect_reject'}),
     dict(key='formatException', file=None, func=None, packed_args=True, serves=[], trusted=True, requires=[],
          ensures={'text': 'is_str(result)'}, raises='never', result_kind='str'),
     dict(key='Module.writeInitParams', file='frappy/modulebase.py', func='Module.writeInitParams', serves=['C10'],
